@@ -118,20 +118,25 @@ def cycles(tree, structs, salt=0, weak_shift=False):
                         else:
                             ents[it] = w.start('S', sim_id=it).M()
                 rec(tree)
-                for key in sorted(st):
-                    u, v = key.split('>')
-                    kind = st[key]
-                    if kind in (1, 3):
-                        k = eng.int(f'k.{u}{v}', 0)
-                        ks[key] = k
-                        w.connect(ents[u], ents[v], ('oe', 'it'), time_shifted=k)
-                    if kind in (2, 3):
-                        if weak_shift:
-                            kw = eng.int(f'kw.{u}{v}', 0)
-                            ks['w' + key] = kw
-                            w.connect(ents[u], ents[v], ('oe', 'it'), weak=True, time_shifted=kw)
-                        else:
-                            w.connect(ents[u], ents[v], ('oe', 'it'), weak=True)
+                try:
+                    for key in sorted(st):
+                        u, v = key.split('>')
+                        kind = st[key]
+                        if kind in (1, 3):
+                            k = eng.int(f'k.{u}{v}', 0)
+                            ks[key] = k
+                            w.connect(ents[u], ents[v], ('oe', 'it'), time_shifted=k)
+                        if kind in (2, 3):
+                            if weak_shift:
+                                kw = eng.int(f'kw.{u}{v}', 0)
+                                ks['w' + key] = kw
+                                w.connect(ents[u], ents[v], ('oe', 'it'), weak=True, time_shifted=kw)
+                            else:
+                                w.connect(ents[u], ents[v], ('oe', 'it'), weak=True)
+                except (AssertionError, ScenarioError, TypeError, KeyError) as e:
+                    eng.alarm('C06.crash', f'connect() failed with {type(e).__name__} {str(e)[:100]}: tree={tree} edges={st}',
+                              {'fp': [str(tree), st, 'connect'], 'outcome': 'connect:' + type(e).__name__, 'incomparable': 'incomparable' in str(e)})
+                    return ('connect-failed', {'nontrivial': True})
 
                 def hop_unresolved(u, v, cyc):
                     kind = st.get(f'{u}>{v}', 0)
@@ -212,6 +217,23 @@ def jobs(tier, seed=0):
             sts = [s for i, s in enumerate(sts) if (i + seed) % 16 == 0]
         for ci, ch in enumerate(chunks(sts, 24)):
             out.append({'id': f'n3|t{ti}|c{ci}', 'harness': 'vk.kernels.c06:cycles', 'params': {'tree': tree, 'structs': ch}, 'budget_s': 600})
+    # four simulators: two routes between one pair (one of them may leave the group), optional back edge
+    tree4d = [[['A', 'D', 'C'], 'B'], [['A', 'C'], 'B', 'D'], [['A', 'B', 'C', 'D']], ['A', 'B', 'C', 'D'], [['A', 'C'], ['B', 'D']],
+              [['A', ['D', 'C']], 'B']]
+    for ti, tree in enumerate(tree4d):
+        paths = paths_of(tree)
+        sts = []
+        for k_ac in (1, 2):
+            for k_dc in (1, 2):
+                for back in ((0,) if q else (0, 1)):
+                    if (k_ac == 2 and not weak_allowed(paths, 'A', 'C')) or (k_dc == 2 and not weak_allowed(paths, 'D', 'C')):
+                        continue
+                    st = {'A>C': k_ac, 'A>B': 1, 'B>D': 1, 'D>C': k_dc}
+                    if back:
+                        st['C>A'] = 1
+                    sts.append(st)
+        if sts:
+            out.append({'id': f'n4d|t{ti}', 'harness': 'vk.kernels.c06:cycles', 'params': {'tree': tree, 'structs': sts}, 'budget_s': 600})
     if not q:
         for ti, tree in enumerate(TREES2):
             sts = structures(tree, self_pairs=True, kinds=(0, 1, 2))
